@@ -568,6 +568,8 @@ def wrapper_defaults(fi):
 
 # --------------------------------------------------------------------------------------------------------- self examples
 SELF_EXAMPLES = [
+    ('misaligned-index', 'def f(roots):\n  cands = [g(r) for r in roots]\n  named = [c for c in cands if c is not None]\n  sizes = [len(c) for c in named]\n  i = sizes.index(max(sizes))\n  return roots[i], named[i]\n', BAD),
+    ('misaligned-index', 'def f(roots):\n  cands = [g(r) for r in roots]\n  sizes = [len(c) for c in cands]\n  i = sizes.index(max(sizes))\n  return roots[i], cands[i]\n', OK),
     ('dropped-pop', 'def f(self, n):\n  if self.ev:\n    last = self.ev.pop()\n    if last.kind == 1:\n      if last.v < 9:\n        n += last.v\n      else:\n        self.ev.append(last)\n  self.ev.append(n)\n', BAD),
     ('dropped-pop', 'def f(self, n):\n  if self.ev:\n    last = self.ev.pop()\n    if last.kind == 1 and last.v < 9:\n      n += last.v\n    else:\n      self.ev.append(last)\n  self.ev.append(n)\n', OK),
     ('neg-zero-slice', 'def f(xs, n):\n  k = len(xs) - n\n  if k < 0:\n    return\n  del xs[-k:]\n', BAD),
@@ -763,6 +765,52 @@ def dead_parameters(fi, P, depth=3):
   return out
 
 
+def misaligned_indexes(fn):
+  """`X[i]` where i is a position in another list L (`L.index(...)`, `enumerate(L)`, `range(len(L))`): positions carry over only
+  between lists that are element-for-element images of each other.  L built from X (or from an image of X) by a comprehension
+  *with a filter* is shorter than X wherever an element was dropped: its positions name other elements of X."""
+  out = []
+
+  def chain(name, at):
+    """[(list name, filtered on the way from `name`?)] for `name` and every list it was derived from."""
+    out_, filt, cur, hops = [(name, False)], False, name, 0
+    while hops < 8:
+      hops += 1
+      d = U.reaching_def(fn, cur, at)
+      nxt = None
+      if isinstance(d, ast.ListComp) and len(d.generators) == 1 and isinstance(d.generators[0].iter, ast.Name):
+        filt = filt or bool(d.generators[0].ifs)
+        nxt = d.generators[0].iter.id
+      elif isinstance(d, ast.Call) and isinstance(d.func, ast.Name) and d.func.id in ('list', 'tuple') and len(d.args) == 1 and isinstance(d.args[0], ast.Name):
+        nxt = d.args[0].id
+      if nxt is None:
+        break
+      out_.append((nxt, filt))
+      cur = nxt
+    return out_
+  for n in ast.walk(fn):
+    if not (isinstance(n, ast.Subscript) and isinstance(n.slice, ast.Name) and isinstance(n.value, ast.Name) and isinstance(n.ctx, ast.Load)):
+      continue
+    d = U.reaching_def(fn, n.slice.id, n)
+    src = None
+    if isinstance(d, ast.Call) and isinstance(d.func, ast.Attribute) and d.func.attr == 'index' and isinstance(d.func.value, ast.Name):
+      src = d.func.value.id
+    if src is None or src == n.value.id:
+      continue
+    cs = dict(chain(src, n))
+    cx = dict(chain(n.value.id, n))
+    common = [k for k in cs if k in cx]
+    if not common:
+      continue
+    k = common[0]
+    if cs[k] != cx[k]:
+      out.append(Site('misaligned-index', n, BAD, '%s is a position in %s, which %s %s through a comprehension with a filter: wherever the filter dropped an element, %s[%s] is an earlier element of '
+                      '%s than the one the position was found for' % (n.slice.id, src, 'was built from' if cs[k] else 'is longer than a filtered copy of', k, n.value.id, n.slice.id, n.value.id)))
+    else:
+      out.append(Site('misaligned-index', n, OK, '%s and %s are element-for-element images of %s' % (src, n.value.id, k)))
+  return out
+
+
 def dropped_pops(fn):
   """`x = C.pop(...)` in a function whose job is to *add* to C: on every way out (a return, the end of the function, the end of the
   loop body the pop sits in) the removed element has been put back or used - read somewhere other than in a branch condition.  A
@@ -852,6 +900,7 @@ def dropped_pops(fn):
 
 DETECT = {
     'dropped-pop': lambda fn, mod: dropped_pops(fn),
+    'misaligned-index': lambda fn, mod: misaligned_indexes(fn),
     'neg-zero-slice': lambda fn, mod: neg_zero_slices(fn),
     'previous-wraps': lambda fn, mod: previous_wraps(fn),
     'falsy-zero': falsy_zero,
